@@ -708,3 +708,42 @@ def memoised_helpers(idx, fi):
             if q in MEMO_DECORATORS or (q or src(target)).split(".")[-1] in ("lru_cache", "memoize", "memoized", "cached"):
                 out.append((f_, src(d_)))
     return out
+
+
+
+def success_flag_ok(cfg, fi, f, good):
+    """`if <local>: self.<finished flag> = True` (in a finally block, say) where <local> is False from the start and set True only
+    after the result was stored: on every path the flag store is taken exactly when the store happened.  `f` is the CFG node of
+    the flag store, `good` the nodes that store execute's value."""
+    import ast as _ast
+
+    node = f.ast if isinstance(getattr(f, "ast", None), _ast.AST) else None
+    if node is None or not good:
+        return False
+    par = {}
+    for x in _ast.walk(fi.node):
+        for ch in _ast.iter_child_nodes(x):
+            par[id(ch)] = x
+    # the statement holding the store
+    st = node
+    while st is not None and not isinstance(st, _ast.stmt):
+        st = par.get(id(st))
+    up = par.get(id(st)) if st is not None else None
+    if not (isinstance(up, _ast.If) and st in up.body and isinstance(up.test, _ast.Name)):
+        return False
+    L = up.test.id
+    assigns = [n for n in cfg.find("store") if isinstance(n.ast, _ast.Name) and n.ast.id == L]
+    if not assigns or any(not isinstance(n.meta.get("value"), _ast.Constant) or n.meta["value"].value not in (True, False) for n in assigns):
+        return False
+    trues = [n for n in assigns if n.meta["value"].value is True]
+    falses = [n for n in assigns if n.meta["value"].value is False]
+    if not trues:
+        return False
+    if not all(cfg.must_pass_through(cfg.entry, t, set(good)) for t in trues):
+        return False  # set True on a path that did not store the result
+    if not all(cfg.must_pass_through(m, cfg.exit, set(trues)) for m in good):
+        return False  # the result stored but the local left False on some normal path
+    for t in trues:
+        if any(x in cfg.reachable([t]) for x in falses):
+            return False
+    return True
